@@ -222,7 +222,7 @@ impl R {
     #[verifier::external_body]
     pub fn ceil(self) -> (r: R) ensures r@ == rceil(self@) { unimplemented!() }
     #[verifier::external_body]
-    pub fn powf(self, y: R) -> (r: R) ensures r@ == rpowf(self@, y@) { unimplemented!() }
+    pub fn powf(self, y: R) -> (r: R) ensures r@ == rpowf(self@, y@), self@ > 0real ==> r@ > 0real, 0real < self@ < 1real && y@ > 0real ==> r@ < 1real { unimplemented!() }
     #[verifier::external_body]
     pub fn exp(self) -> (r: R) ensures r@ == rexp(self@) { unimplemented!() }
     #[verifier::external_body]
